@@ -38,6 +38,7 @@ KeyF(i) == IF i = 1 THEN "k1" ELSE "k2"
 Files == UNION {{CertF(i), KeyF(i)} : i \in Pairs}
 Order == IF NPairs = 1 THEN <<"c1", "k1">> ELSE <<"c1", "k1", "c2", "k2">>
 IsCertF(f) == f \in {"c1", "c2"}
+PairOfF(f) == IF f \in {"c1", "k1"} THEN 1 ELSE 2
 SNIs == {"a", "b", "z", "n"}        \* name of pair 1, name of pair 2, a name nobody has, no SNI at all
 NameOf(p) == IF p = 1 THEN "a" ELSE "b"
 Settle == 2        \* docs/tutorials/setting-up.md: "reloads TLS certificates from disk once in a minute"; weak reading: two
@@ -74,6 +75,8 @@ Expected(d) == SV(DiskCerts(d))
 \* complete pairs on disk right now, by the slot they are configured in
 Snap(d) == {[i |-> i, v |-> d[CertF(i)].v] : i \in {j \in Pairs : PairOK(d[CertF(j)], d[KeyF(j)])}}
 
+SnapC(d) == {[i |-> i, v |-> d[CertF(i)].v] : i \in {j \in Pairs : d[CertF(j)].k = "pem" /\ d[CertF(j)].v > 0}}
+
 NoRd == [bad |-> FALSE, c |-> NoC]
 NoPark == [th \in Ths |-> ""]
 
@@ -81,6 +84,9 @@ ObsInit(d) ==
   [ now     |-> 0,
     disk    |-> d,
     seen    |-> Snap(d),      \* every (slot, version) that was on disk as a complete pair at some instant
+    seenC   |-> SnapC(d),     \* every (slot, version) of a complete certificate file, whatever the key file was
+    open    |-> {},           \* pairs whose writer is between the two writes of a deployment / inside an in-place write
+    wild    |-> FALSE,        \* some writer was disturbed in there (its files removed, made unreadable, replaced)
     first   |-> TRUE,
     prev    |-> [s \in SNIs |-> 0],
     since   |-> 0,            \* instant of the last disturbance (an edit; time passing inside a reload)
@@ -97,8 +103,12 @@ V(o, c, name) == IF c THEN o ELSE [o EXCEPT !.viol = @ \cup {name}]
 \* one recorded step of the environment / clock / loader / API
 ObsEv(o, name, e) ==
   CASE name = "EPut" ->
-         LET d == [o.disk EXCEPT ![e.f] = C(e.c)] IN
-         [o EXCEPT !.disk = d, !.seen = @ \cup Snap(d), !.since = o.now, !.farm = FALSE]
+         LET d == [o.disk EXCEPT ![e.f] = C(e.c)]
+             i == PairOfF(e.f)
+         IN [o EXCEPT !.disk = d, !.seen = @ \cup Snap(d), !.seenC = @ \cup SnapC(d), !.since = o.now, !.farm = FALSE,
+                      !.wild = @ \/ (i \in o.open /\ e.kind \notin {"finish", "part"}),
+                      !.open = IF e.kind \in {"dep", "depk", "trunc"} THEN @ \cup {i}
+                               ELSE IF e.kind = "finish" THEN @ \ {i} ELSE @]
     [] name = "Tick" ->
          [o EXCEPT !.now = @ + 1,
                    !.since = IF \E th \in Ths : o.parked[th] # "" THEN o.now + 1 ELSE @]
@@ -126,10 +136,12 @@ ObsLook(o, L) ==
       \* every handshake is answered
       o2 == V(o1, \A s \in SNIs : L.sv[s] # 0, "NoCertificate")
       \* ... with a certificate whose key the server holds (the handshake succeeded) and that was on disk
-      \* next to that key, as a complete pair, at some instant
-      o3 == V(o2, \A s \in SNIs : L.sv[s] # 0 => \E r \in o.seen : r.v = L.sv[s], "PairNeverOnDisk")
+      \* next to that key, as a complete pair, at some instant (a loader that reads two files cannot promise
+      \* the "next to" when a writer is disturbed between its two writes: then only "was on disk, complete")
+      known == IF o.wild THEN o.seenC ELSE o.seen
+      o3 == V(o2, \A s \in SNIs : L.sv[s] # 0 => \E r \in known : r.v = L.sv[s], "PairNeverOnDisk")
       \* ... chosen by the SNI name, the first pair when no name matches
-      o4 == V(o3, \A s \in SNIs : (\E r \in o.seen : r.v = L.sv[s]) => [i |-> Slot(s), v |-> L.sv[s]] \in o.seen,
+      o4 == V(o3, \A s \in SNIs : (\E r \in known : r.v = L.sv[s]) => [i |-> Slot(s), v |-> L.sv[s]] \in known,
               "WrongCertForName")
       exp == Expected(o.disk)
       o5 == IF o.first THEN V(o4, Complete(o.disk) => L.sv = exp, "InitLoadedWrong") ELSE o4
